@@ -102,6 +102,7 @@ pub fn child_main(args: &[String]) -> i32 {
             let shape = args.get(2).map(|s| s.as_str()).unwrap_or("seq");
             c11::stack_child(depth, shape)
         }
+        Some("c11-shard") => c11::shard_child(&args[1..]),
         _ => 2,
     }
 }
